@@ -17,21 +17,25 @@ import os
 import re
 
 import parser_common as pc
-from lib import Check, ToolError, build_harness, clean_dir, log, seed, workdir
+from lib import VERIF, Check, ToolError, build_harness, clean_dir, log, seed, workdir
 
 C09_KINDS = ("panic", "crash", "hang", "diag_span")
 
 
 def norm_loc(detail):
-    """`<file>:<line>: message` -> (site relative to the repository, message)."""
-    m = re.match(r"^(.*?):(\d+): (.*)$", detail, re.S)
+    """`<file>:<line>[ [in <symbol>]]: message` -> (site relative to the repository / registry crate, symbol, message)."""
+    m = re.match(r"^(.*?):(\d+)(?: \[in (.*?)\])?: (.*)$", detail, re.S)
     if not m:
-        return "", detail
+        return "", "", detail
     f = m.group(1)
     i = f.find("crates/")
     if i >= 0:
         f = f[i:]
-    return f"{f}:{m.group(2)}", m.group(3)
+    else:
+        j = f.find("/registry/src/")
+        if j >= 0:
+            f = "/".join(f[j:].split("/")[4:])
+    return f"{f}:{m.group(2)}", m.group(3) or "", m.group(4)
 
 
 def c09_key(p):
@@ -40,8 +44,8 @@ def c09_key(p):
     if p["kind"] == "panic":
         if p["stage"] == "tree_walk":
             return None  # tree API failing on the tree it came from: C10's criterion
-        site, msg = norm_loc(p["detail"])
-        return {"kind": "panic", "stage": p["stage"], "at": site, "message_prefix": msg[:60]}
+        site, sym, msg = norm_loc(p["detail"])
+        return {"kind": "panic", "stage": p["stage"], "at": site, "message_prefix": re.sub(r"Id\([0-9a-f]+\)", "Id(_)", msg)[:60]}
     if p["kind"] == "diag_span":
         return {"kind": "diag_span", "stage": p["stage"], "what": p["detail"].split(":")[0]}
     return {"kind": p["kind"], "stage": p["stage"]}
@@ -75,7 +79,8 @@ def sample_lines(src, dest, every, offset, keep=lambda o: True):
 def main(tier, replay=None):
     chk = Check("C09", tier)
     build_harness(["parse_trace"])
-    wd = workdir("parser", "c09")
+    tag = "c09" + pc.WTAG
+    wd = workdir("parser", tag)
     if replay:
         inp = os.path.join(wd, "replay_in.ndjson")
         obj = pc.replay_inputs(replay, inp)
@@ -90,7 +95,7 @@ def main(tier, replay=None):
 
     # 1. input space: LexModel (exhaustive strings / soups), corpus mutants, corpus originals, nesting probes
     inputs = os.path.join(wd, "inputs.ndjson")
-    n_lex, per_cfg = pc.gen_lexmodel(chk, pc.LEX_CFGS[tier], "c09", inputs)
+    n_lex, per_cfg = pc.gen_lexmodel(chk, pc.LEX_CFGS[tier], tag, inputs)
     n_mut = 6000 if tier == "quick" else 60000
     mut = os.path.join(wd, "mutants.ndjson")
     info = pc.gen_texts("gen-mutants", mut, n_lex + 1, [str(n_mut), "--cap", str(pc.NEST_CAP)])
@@ -107,6 +112,17 @@ def main(tier, replay=None):
     n_full += sample_lines(mut, full_in, 1, 0)
     n_full += sample_lines(nest, full_in, 1, 0)
     n_full += sample_lines(corp, full_in, 1, 0, keep=lambda line: len(line) < 6000)
+    # reproducing inputs of recorded findings are always part of the run (deterministic KNOWN-FINDING lines)
+    fdir = os.path.join(VERIF, "corpus", "findings", "C09")
+    n_find = 0
+    if os.path.isdir(fdir):
+        with open(full_in, "a") as g:
+            for name in sorted(os.listdir(fdir)):
+                with open(os.path.join(fdir, name)) as f:
+                    g.write(json.dumps({"k": "text", "id": 900000000 + n_find, "origin": "corpus/findings/C09/" + name,
+                                        "text": f.read()}) + "\n")
+                n_find += 1
+    n_full += n_find
     with open(inputs, "a") as g:
         for p in (mut, corp, nest):
             with open(p) as f:
@@ -149,8 +165,8 @@ def main(tier, replay=None):
 
     # 4. V: recordings must be explained by the cursor protocol ending in Eof; recorded diagnostics inside the file
     bad_ids = {p["id"] for p in problems}
-    tv = pc.validate_traces(chk, os.path.join(out, "traces.ndjson"), "c09", shards=8,
-                            limit=24000 if tier == "quick" else 400000)
+    tv = pc.validate_traces(chk, os.path.join(out, "traces.ndjson"), tag, shards=8,
+                            limit=12000 if tier == "quick" else 150000)
     rejected = tv["rejected"]
     rej_known = [s for s in rejected if tv["idmap"][s] in bad_ids]
     rej_drift = [s for s in rejected if tv["idmap"][s] not in bad_ids]
@@ -187,7 +203,10 @@ def main(tier, replay=None):
                 "non-trivial = the parse needed recovery (a skipped token, a missing token or a skipped node in the tree)",
         "parsed_and_formatted": summary["formatted"], "with_parser_diagnostics": summary["with_parser_diags"],
         "full_diagnostics_inputs": summary2["full"], "semantic_lowering_diagnostics_seen": summary2["sem_diags"],
-        "distinct_traces": tv["traces"], "traces_accepted": tv["accepted"], "binding_drift": len(rej_drift),
+        "exhaustive_scope": "LexModel input spaces enumerated completely by TLC; corpus mutants are a seeded sample; semantic+lowering "
+                            "diagnostics on a subset; TLC validates distinct_traces_validated of distinct_traces_recorded",
+        "distinct_traces_recorded": summary["distinct_traces"], "distinct_traces_validated": tv["traces"],
+        "traces_accepted": tv["accepted"], "binding_drift": len(rej_drift),
         "traces_rejected_problem_inputs": len(rej_known), "model_invariant_failures_on_traces": len(tv["invfail"]),
         "replays_executed": summary["len_pred_checked"], "cursor_steps": tv["steps"],
         "panics": len([p for p in problems if p["kind"] == "panic" and p["stage"] != "tree_walk"]),
